@@ -150,6 +150,7 @@ type conn struct {
 	followUp   bool
 	broken     bool // a write failed while reads were held
 	groupTag   string
+	afterRej   map[uint32]bool // ids on which a HEADERS/CONTINUATION frame was sent while the id was used up only by rejected blocks (D20)
 	groupFrom  int
 	silent     bool // fell silent after its graceful GOAWAY (taken as connection error)
 
@@ -365,6 +366,12 @@ func (c *conn) exec(s Step) {
 		c.pending = append(c.pending, p)
 		if v.Tag != "" && c.groupTag == "" {
 			c.groupTag = v.Tag
+		}
+		if v.Tag == h2peer.TagAfterRejected && (v.Type == 1 || v.Type == 9) {
+			if c.afterRej == nil {
+				c.afterRej = map[uint32]bool{}
+			}
+			c.afterRej[v.SID] = true
 		}
 		c.logf("> %s [%s]  expect %s", v.Desc, s.Label, v)
 		if v.Graceful {
@@ -949,7 +956,7 @@ func (c *conn) checkStarts() {
 		if rs == nil || !rs.MayStart {
 			st := c.ref.StateOf(s.SID)
 			cls := "handler-not-allowed:" + st.String()
-			if s.SID%2 == 1 && s.SID > c.ref.MaxAcceptedID && s.SID <= c.ref.MaxClientID {
+			if c.afterRej[s.SID] || (s.SID%2 == 1 && s.SID > c.ref.MaxAcceptedID && s.SID <= c.ref.MaxClientID) {
 				cls = h2peer.TagAfterRejected // D20 (a)
 			}
 			c.violate(cls, "handler started for stream %d, for which the reference allows none (reference stream state: %v; dead=%v graceful-goaway=%v last=%d)", s.SID, st, c.ref.Dead, c.ref.ServerGoAway, c.ref.ServerLast)
